@@ -227,6 +227,11 @@ def FloatOK (p : Multivariant) : Prop :=
 
 instance (p : Multivariant) : Decidable (FloatOK p) := by unfold FloatOK; exact inferInstance
 
+/-- the EXT-X-START part of `FloatOK` (the FRAME-RATE part is a theorem, `FrFloatOK_of_WF`) -/
+def StartFloatOK (p : Multivariant) : Prop := OptAll p.start (fun t => DurFloatOK t.timeOffset)
+
+instance (p : Multivariant) : Decidable (StartFloatOK p) := by unfold StartFloatOK; exact inferInstance
+
 /-- attribute values the library passes through verbatim have the RFC's lexical class
     (RESOLUTION is a decimal-resolution) -/
 def LexicalOK (p : Multivariant) : Prop :=
